@@ -35,8 +35,17 @@ TPLS = {
     "g.html": "{% extends 'base.html' %}{% block body %}G{{ name }}{% endblock %}{% block tail %}{{ af('t') }}{{ super() }}{% endblock %}",
     "base.html": "<{% block body %}b{{ af('bb') }}{% endblock %}|{% block tail %}t{% endblock %}>{{ gl }}",
     "h.html": "{% import 'helper.html' as h with context %}H:{{ h.greet(name) }}{{ h.pre }}",
+    # per-render state that must not be shared between tasks: the autoescape flag of a region and the block stack
+    "i.html": "{{ name }}{{ af(1) }}{% autoescape false %}{{ name }}{{ af(2) }}{{ name }}{% endautoescape %}{{ af(3) }}{{ name }}"
+              "{% autoescape flag %}{{ name }}{{ af(4) }}{{ name }}{% endautoescape %}{{ name }}",
+    "j.html": "{% extends layout %}{% block body %}J{{ af(name) }}{{ super() }}{% endblock %}{% block tail %}{{ super() }}{{ af('jt') }}{% endblock %}",
+    "base2.html": "({% block body %}b2{{ af('b2') }}{% endblock %}~{% block tail %}t2{% endblock %}){{ gl }}",
+    "k.html": "{% if flag %}{% extends 'base.html' %}{% else %}{% extends 'base2.html' %}{% endif %}{% block body %}K{{ af(name) }}{{ super() }}{% endblock %}",
+    # known finding (see known_module_autoescape_flag_ok): a macro of a cached module with a runtime-decided autoescape region
+    "flaglib.html": "{% macro m(f, v) %}{% autoescape f %}{{ af(v) }}{{ v }}{% endautoescape %}{% endmacro %}",
+    "flaguse.html": "{% import 'flaglib.html' as lib %}{{ lib.m(flag, name) }}",
 }
-MAINS = ["a.html", "b.html", "c.html", "d.txt", "e.html", "f.html", "g.html", "h.html"]
+MAINS = ["a.html", "b.html", "c.html", "d.txt", "e.html", "f.html", "g.html", "h.html", "i.html", "j.html", "k.html"]
 P = {}
 
 
@@ -95,8 +104,12 @@ def setup(param):
     P = dict(param or {})
 
 
+def _ctx(i):
+    return dict(name="n%d<" % i, items=[1, 2], flag=(i % 2 == 0), layout=["base.html", "base2.html"][i % 2])
+
+
 def sched_native(names, warm, picks):
-    ctxs = [dict(name="n%d<" % i, items=[1, 2]) for i in range(len(names))]
+    ctxs = [_ctx(i) for i in range(len(names))]
     expected = []
     for i, (n, c) in enumerate(zip(names, ctxs)):
         if (n, i) not in EXPECTED:
@@ -153,7 +166,7 @@ def _steps_needed(names, warm):
     total = 0
     for i, n in enumerate(names):
         env = _mkenv()
-        coro = env.get_template(n).render_async(name="n%d<" % i, items=[1, 2])
+        coro = env.get_template(n).render_async(**_ctx(i))
         try:
             while True:
                 coro.send(None)
@@ -181,16 +194,22 @@ def three_ok(t1: int, t2: int, t3: int, picks: List[int]) -> bool:
         return sched_native(names, False, pk + [0] * 40)
 
 
+def known_module_autoescape_flag_ok():
+    """Known-finding witness: two tasks calling a macro of a cached imported module whose body has a runtime-decided
+    autoescape region share the module's eval context; the flag set by one is seen by the other."""
+    return sched_native(["flaguse.html", "flaguse.html"], True, [1, 0, 1, 0, 1, 0])
+
+
 def conditions(tier, seed):
     th = tier == "thorough"
-    to = 240 if th else 60
+    to = 300 if th else 100
     out = []
     npk = 10 if th else 7
     for lo in range(len(MAINS)):
         out.append(Cond(f"two tasks[first={MAINS[lo]}]", "conc_ok", mode="B", param={"lo": lo, "n": 1, "npicks": npk}, timeout=to,
                         witnesses=[[lo, 1, False, [True, False] * 5][:3] + [[True, False, True, True, False, True, False, False, True, True][:npk]], [lo, lo, True, [False] * npk]],
                         bounds=f"first task fixed, second task any of {len(MAINS)} templates, cold or warm caches, every choice of which task runs at each of the first {npk} suspensions (then round-robin)"))
-    for trio in (["a.html", "b.html", "h.html"], ["c.html", "d.txt", "e.html"], ["f.html", "g.html", "b.html"]):
+    for trio in (["a.html", "b.html", "h.html"], ["c.html", "d.txt", "e.html"], ["f.html", "g.html", "b.html"], ["j.html", "j.html", "k.html"], ["i.html", "i.html", "i.html"]):
         out.append(Cond(f"three tasks{trio}", "three_ok", mode="B", param={"trio": trio}, timeout=to,
                         witnesses=[[0, 1, 2, [0, 1, 2, 0, 1, 2]], [0, 1, 2, [2, 2, 1, 1, 0, 0]]],
                         bounds="3 concurrent renders from a trio, every choice of the running task at the first 6 suspensions"))
